@@ -486,9 +486,132 @@ def r16d(ctx, P):
     ctx.floor(rid, n, 3, "float-derived index sites reachable from search")
 
 
+def _is_empty_literal(f, operand):
+    """The operand is (a reference / unsized reference to) an array literal with no elements: `&[]`."""
+    l = op_local(operand)
+    seen = set()
+    while l is not None and l not in seen:
+        seen.add(l)
+        dfs = [d for d in f.defs().get(l, []) if not d.get("partial")]
+        if len(dfs) != 1 or dfs[0]["k"] != "assign":
+            return False
+        rv = dfs[0]["rv"]
+        if rv["k"] == "agg" and rv.get("ak") == "array" and not rv["ops"]:
+            return True
+        if rv["k"] in ("use", "cast"):
+            l = op_local(rv["a"])
+        elif rv["k"] == "ref":
+            l = rv["place"]["l"]
+        else:
+            return False
+    return False
+
+
+def _param_aliases(g, pi):
+    al = {pi}
+    ch = True
+    while ch:
+        ch = False
+        for l, dfs in g.defs().items():
+            if l in al:
+                continue
+            for d in dfs:
+                if d["k"] == "assign" and not d.get("partial"):
+                    rv = d["rv"]
+                    if rv["k"] in ("use", "cast") and op_local(rv["a"]) in al:
+                        al.add(l); ch = True
+                    elif rv["k"] == "ref" and rv["place"]["l"] in al and all(e == "deref" for e in rv["place"]["p"]):
+                        al.add(l); ch = True
+                elif d["k"] == "call" and d["t"]["args"] and op_local(d["t"]["args"][0]) in al and \
+                        callee_of(d["t"]).endswith(("Deref>::deref", "::as_slice", "::as_ref", "::borrow")):
+                    al.add(l); ch = True
+    return al
+
+
+def _direct_index_sites(P, g, pi, depth=0, seen=None):
+    """Sites (in g or in crate callees the parameter is handed to) that index parameter pi without a length test."""
+    seen = seen if seen is not None else set()
+    if (g.path, pi) in seen or depth > 4:
+        return []
+    seen.add((g.path, pi))
+    al = _param_aliases(g, pi)
+    sl = Slice(g)
+    out = []
+
+    def guarded(b):
+        for (a, succ) in g.control_deps_transitive(b):
+            t = g.blocks[a]["term"]
+            if t["k"] != "switch":
+                continue
+            for x in sl.sources(t["on"]):
+                if x[0] == "call" and callee_of(x[2]).endswith(("::len", "::is_empty")) and x[2]["args"] and op_local(x[2]["args"][0]) in al:
+                    return True
+                if x[0] == "other" and "PtrMetadata" in str(x[1]):
+                    return True
+        return False
+    for b, i, st in g.stmts():
+        if st["k"] != "assign":
+            continue
+        places = [st["dst"]]
+        rv = st["rv"]
+        if rv["k"] in ("ref", "discr"):
+            places.append(rv["place"])
+        elif rv["k"] in ("use", "cast"):
+            pl = op_place(rv["a"])
+            if pl:
+                places.append(pl)
+        for pl in places:
+            if pl["l"] in al and any(isinstance(e, dict) and ("index" in e or "cindex" in e) for e in pl["p"]):
+                if not guarded(b):
+                    out.append(Site(g, b, i))
+    for b, t in g.calls():
+        cal = callee_of(t)
+        if re.search(r"ops::index::Index(Mut)?(<[^>]*>)?>?::index(_mut)?$", cal) and t["args"] and op_local(t["args"][0]) in al:
+            if not guarded(b):
+                out.append(Site(g, b))
+        elif cal in P.fns and P.fns[cal].crate.startswith("searchlite"):
+            for k, a in enumerate(t["args"]):
+                if op_local(a) in al:
+                    out += _direct_index_sites(P, P.fns[cal], k + 1, depth + 1, seen)
+    return out
+
+
+def r16e(ctx, P):
+    rid = "R16.e"
+    ctx.rule(rid, "EMPTY BUFFERS: wherever code reachable from IndexReader::search passes an empty slice literal (`&[]`) to a function "
+                  "of the workspace, that function — and every workspace function it hands the parameter on to — reads the parameter "
+                  "only through checked accessors (get / iter / first / is_empty / len) or behind a length test: a direct index "
+                  "(`p[i]`, Index::index) on such a parameter panics as soon as it is reached")
+    S, entries, reach = entry_set(P)
+    n = 0
+    for q in sorted(reach):
+        f = P.fns[q]
+        if not f.crate.startswith("searchlite") or is_test_or_bench(f):
+            continue
+        for b, t in f.calls():
+            cal = callee_of(t)
+            if cal not in P.fns or not P.fns[cal].crate.startswith("searchlite"):
+                continue
+            for k, a in enumerate(t["args"]):
+                if not _is_empty_literal(f, a):
+                    continue
+                n += 1
+                ctx.saw(f)
+                sites = _direct_index_sites(P, P.fns[cal], k + 1)
+                g = P.fns[cal]
+                pname = g.locals[k + 1].get("name") or "arg%d" % (k + 1)
+                ctx.ob(rid, "%s:%s->%s:%s" % (rid, re.sub(r"\{closure#\d+\}", "{closure}", f.short), g.short.rsplit("::", 1)[-1], pname), not sites,
+                       "`&[]` passed as `%s` to %s is only read through checked accessors" % (pname, g.short) if not sites else
+                       "%s passes `&[]` as `%s` to %s at %s, and that parameter is indexed directly at %s: the request that takes this "
+                       "path panics (index out of bounds)" % (f.short, pname, g.short, Site(f, b).loc(), sites[0].loc()),
+                       sites[0].loc() if sites else Site(f, b).loc())
+    ctx.floor(rid, n, 3, "empty slice literals passed to workspace functions on the search path")
+
+
 def run(ctx, progs):
     P = progs.get("default")
     r16a(ctx, P)
+    r16e(ctx, P)
     r16d(ctx, P)
     r16b(ctx, P)
     r16c(ctx, P)
